@@ -331,13 +331,13 @@ public:
 				// f = 1.ffff 2^exponent * 2^fbits * 2^-(2-2^(es-1)) = 1.ff...ff >> (23 - (-exponent + fbits - (2 -2^(es-1))))
 				// -exponent because we are right shifting and exponent in this range is negative
 				adjustment = -(exponent + subnormal_reciprocal_shift[es]); // this is the right shift adjustment due to the scale of the input number, i.e. the exponent of 2^-adjustment
-				if (shiftRight > 0) {		// do we need to round?
+				if (shiftRight + adjustment >= 0) {		// do we need to round?
 					ubit = (mask & raw) != 0;
 					raw >>= shiftRight + adjustment;
 				}
 				else { // all bits of the float go into this representation and need to be shifted up
 					// ubit = false; already set to false
-					std::cout << "conversion of IEEE float to more precise areals not implemented yet\n";
+					raw <<= -(shiftRight + adjustment);
 				}
 			}
 		}
@@ -346,7 +346,7 @@ public:
 			biasedExponent = static_cast<uint32_t>(exponent + EXP_BIAS); // reasonable to limit exponent to 32bits
 
 			// fraction processing
-			if (shiftRight > 0) {		// do we need to round?
+			if (shiftRight >= 0) {		// do we need to round?
 				// we have 23 fraction bits and one hidden bit for a normal number, and no hidden bit for a subnormal
 				// simpler rounding as uncertainty bit captures any non-zero bit past the LSB
 				// ...  lsb | sticky      ubit
@@ -355,9 +355,9 @@ public:
 				ubit = (mask & raw) != 0;
 				raw >>= shiftRight;
 			}
-			else { // all bits of the double go into this representation and need to be shifted up
+			else { // all bits of the float go into this representation and need to be shifted up
 				// ubit = false; already set to false
-				std::cout << "conversion of IEEE double to more precise areals not implemented yet\n";
+				raw <<= -shiftRight;
 			}
 			// all exponent bits and all fraction bits set is the encoding of inf/nan: such a value lies beyond maxpos and saturates
 			if (exponent == MAX_EXP - 1 && (raw >> 1) == ((1ull << fbits) - 1ull)) {
@@ -488,13 +488,13 @@ public:
 				std::cout << "bias shift      : " << subnormal_reciprocal_shift[es] << std::endl;
 				std::cout << "adjustment      : " << adjustment << std::endl;
 #endif
-				if (shiftRight > 0) {		// do we need to round?
+				if (shiftRight + adjustment >= 0) {		// do we need to round?
 					ubit = (mask & raw) != 0;
 					raw >>= (static_cast<std::int64_t>(shiftRight) + adjustment);
 				}
 				else { // all bits of the double go into this representation and need to be shifted up
 					// ubit = false; already set to false
-					std::cout << "conversion of IEEE double to more precise areals not implemented yet\n";
+					raw <<= -(static_cast<std::int64_t>(shiftRight) + adjustment);
 				}
 			}
 		}
@@ -504,7 +504,7 @@ public:
 
 			// fraction processing
 			mask = 0x000F'FFFF'FFFF'FFFF >> fbits; // mask for sticky bit 
-			if (shiftRight > 0) {		// do we need to round?
+			if (shiftRight >= 0) {		// do we need to round?
 				// we have 52 fraction bits and one hidden bit for a normal number, and no hidden bit for a subnormal
 				// simpler rounding as uncertainty bit captures any non-zero bit past the LSB
 				// ...  lsb | sticky      ubit
@@ -515,7 +515,7 @@ public:
 			}
 			else { // all bits of the double go into this representation and need to be shifted up
 				// ubit = false; already set to false
-				std::cout << "conversion of IEEE double to more precise areals not implemented yet\n";
+				raw <<= -shiftRight;
 			}
 			// all exponent bits and all fraction bits set is the encoding of inf/nan: such a value lies beyond maxpos and saturates
 			if (exponent == MAX_EXP - 1 && (raw >> 1) == ((1ull << fbits) - 1ull)) {
